@@ -48,7 +48,7 @@ type C18Case struct {
 	Shape   string `json:"request_shape"`
 	Field   string `json:"scaled_field"`
 	Via     int    `json:"via,omitempty"` // history through which the middleware reaches its state; see mkMWVia
-	Flavor  string `json:"flavor"` // letter case / padding of the scaled content: lower | mixed | upper | padded
+	Flavor  string `json:"flavor"`        // letter case / padding of the scaled content: lower | mixed | upper | padded
 }
 
 var c18Flavors = []string{"lower", "mixed", "upper", "padded"}
